@@ -37,13 +37,13 @@ const specDir = "file"
 
 // genCase is one line of Gen_XRefHistory's table.
 type genCase struct {
-	T          string   `json:"t"`
-	H          history  `json:"h"`
-	Expect     [][3]int `json:"expect"`
-	Trailer    int      `json:"trailer"`
-	Body       []int    `json:"body"`
-	Extent     int      `json:"extent"`
-	Admissible bool     `json:"admissible"`
+	T          string     `json:"t"`
+	H          history    `json:"h"`
+	Expect     [][3]int   `json:"expect"`
+	Trailer    trailerObs `json:"trailer"`
+	Body       []int      `json:"body"`
+	Extent     int        `json:"extent"`
+	Admissible bool       `json:"admissible"`
 }
 
 // histCase identifies one rendering of a history (replayable).
@@ -136,7 +136,7 @@ func histKey(rec histRecord, res *ser.Result, b *built, expect func(n, g int) in
 			lookupFails = true
 		}
 	}
-	if lookupFails && (!rec.Open || rec.Trailer == len(rec.H)) && f11Trigger(res.Bytes) && explainedByOffByOne(rec, res, b) {
+	if lookupFails && (!rec.Open || rec.Trailer == expectedTrailer(rec.H)) && f11Trigger(res.Bytes) && explainedByOffByOne(rec, res, b) {
 		return "xref-table/subsection-starts-at-1/first-entry-free-65535-next-0/taken-for-misnumbered-table"
 	}
 	if !rec.Open {
@@ -161,7 +161,26 @@ func histKey(rec histRecord, res *ser.Result, b *built, expect func(n, g int) in
 			return fmt.Sprintf("lookup/newest=%s/last-op=%s/want=%s/got=%s", rec.H[len(rec.H)-1].K, lastOp(rec.H, p[0]), w, got)
 		}
 	}
-	return "trailer/newest=" + rec.H[len(rec.H)-1].K
+	// which item of GetMeta() is not the newest trailer's
+	want, got := expectedTrailer(rec.H), rec.Trailer
+	item := "other-entries"
+	switch {
+	case got.Info != want.Info:
+		item = "Info"
+	case got.XX != want.XX:
+		item = "private-key"
+	case got.ID != want.ID:
+		item = "ID"
+	case got.MetaInfo != want.MetaInfo:
+		item = "decoded-Info"
+	case got.MetaID != want.MetaID:
+		item = "decoded-ID"
+	}
+	cls := "of-an-older-revision"
+	if got.Info < 0 || got.XX < 0 || got.ID < 0 || got.MetaInfo < 0 || got.MetaID < 0 {
+		cls = "unknown-value"
+	}
+	return fmt.Sprintf("trailer/newest=%s/%s/%s", rec.H[len(rec.H)-1].K, item, cls)
 }
 
 // simulate is the harness's own reading of the history, used only to
@@ -191,9 +210,9 @@ func simulate(h history) func(n, g int) int {
 
 func mcConstants(ctx *core.Ctx) string {
 	if ctx.Thorough() {
-		return "Objs={1,2,3}, MaxRevs=3, Styles={runs}, ZeroFree=FALSE, MaxPieces=5, OFFBYONE=FALSE, NULLZERO=FALSE, KEYGEN0=FALSE, DECRYPTMEMBERS=FALSE"
+		return "Objs={1,2,3}, MaxRevs=3, Styles={runs}, ZeroFree=FALSE, MaxPieces=5, OFFBYONE=FALSE, NULLZERO=FALSE, KEYGEN0=FALSE, DECRYPTMEMBERS=FALSE, TRAILERMERGE=FALSE; trailer mode: 3 revisions, every choice of optional trailer keys"
 	}
-	return "Objs={1,2,3}, MaxRevs=2, Styles={one,each,runs}, ZeroFree=TRUE, MaxPieces=4, OFFBYONE=FALSE, NULLZERO=FALSE, KEYGEN0=FALSE, DECRYPTMEMBERS=FALSE"
+	return "Objs={1,2,3}, MaxRevs=2, Styles={one,each,runs}, ZeroFree=TRUE, MaxPieces=4, OFFBYONE=FALSE, NULLZERO=FALSE, KEYGEN0=FALSE, DECRYPTMEMBERS=FALSE, TRAILERMERGE=FALSE; trailer mode: 3 revisions, every choice of optional trailer keys"
 }
 
 func tlcOpts() core.TLCOpts {
@@ -316,7 +335,7 @@ func run(ctx *core.Ctx) error {
 			}
 			taken++
 			s := ctx.Seed*7_000_003 + int64(n3)
-			c := histCase{Kind: "hist", H: h, CSeed: s*2 + 1, RSeed: s}
+			c := histCase{Kind: "hist", H: withTrailers(h, rand.New(rand.NewSource(s))), CSeed: s*2 + 1, RSeed: s}
 			if n3%2 == 0 {
 				c.Crypt = cryptNames[(n3/2)%len(cryptNames)]
 			}
@@ -366,7 +385,7 @@ func run(ctx *core.Ctx) error {
 type job struct {
 	c      histCase
 	expect [][3]int
-	tr     int
+	tr     trailerObs
 }
 
 type histStats struct {
@@ -528,7 +547,7 @@ func checkStrictValues(f *strict.File, h history, b *built) error {
 }
 
 // tableMismatch compares a record with a line of Gen_XRefHistory's table.
-func tableMismatch(rec histRecord, expect [][3]int, tr int) bool {
+func tableMismatch(rec histRecord, expect [][3]int, tr trailerObs) bool {
 	if !rec.Open || rec.Trailer != tr || len(rec.Probes) != len(expect) {
 		return true
 	}
@@ -580,7 +599,7 @@ func reportHist(ctx *core.Ctx, c histCase, seenKey map[string]int) {
 			}
 		}
 		if !done {
-			what += fmt.Sprintf("GetMeta().Trailer holds the entries of revision %d, not of the newest (%d)", rec.Trailer, len(c.H))
+			what += fmt.Sprintf("GetMeta() reports %+v (per item the revision it comes from), the trailer of the newest revision %d gives %+v", rec.Trailer, len(c.H), expectedTrailer(c.H))
 		}
 	}
 	ctx.Violation(key, what, c)
@@ -628,7 +647,7 @@ func generate(ctx *core.Ctx) ([]genCase, error) {
 		wg.Add(1)
 		go func(sh int) {
 			defer wg.Done()
-			cfg := fmt.Sprintf("INIT Init\nNEXT Next\nCONSTANTS OFFBYONE = FALSE\n NULLZERO = FALSE\n KEYGEN0 = FALSE\n DECRYPTMEMBERS = FALSE\n Objs = {1, 2, 3}\n MaxRevs = 2\n MaxPieces = %d\n Shard = %d\n Shards = %d\n", pieces, sh, shards)
+			cfg := fmt.Sprintf("INIT Init\nNEXT Next\nCONSTANTS OFFBYONE = FALSE\n NULLZERO = FALSE\n KEYGEN0 = FALSE\n DECRYPTMEMBERS = FALSE\n TRAILERMERGE = FALSE\n Objs = {1, 2, 3}\n MaxRevs = 2\n MaxPieces = %d\n Shard = %d\n Shards = %d\n", pieces, sh, shards)
 			cs, _, err := core.GenCases[genCase](ctx, core.TLCOpts{Dir: specDir, Module: "Gen_XRefHistory", CfgText: cfg, Mode: "evaluate",
 				XssMB: 512, Timeout: ctx.Dur(5, 15), Quiet: sh > 0, Constants: "Objs=1..3, MaxRevs=2"})
 			mu.Lock()
@@ -914,7 +933,7 @@ func replay(ctx *core.Ctx, raw json.RawMessage) error {
 		if err != nil {
 			return core.Infra("replay: %v", err)
 		}
-		fmt.Printf("  history %s, %d bytes, F11 layout: %v\n  open=%v trailer=%d probes (n, g, revision answered)=%v %s\n",
+		fmt.Printf("  history %s, %d bytes, F11 layout: %v\n  open=%v trailer=%+v probes (n, g, revision answered)=%v %s\n",
 			c.H.key(), len(res.Bytes), f11Trigger(res.Bytes), rec.Open, rec.Trailer, rec.Probes, rec.Err)
 		bad, err := core.JudgeCases(ctx, tlcOpts(), []histRecord{rec}, 1, 1)
 		if err != nil {
